@@ -214,5 +214,28 @@ def pushBackSelf (t : TVec α) (i : Nat) : Option (TVec α) :=
   | none => none
   | some x => pushBack t x
 
+/-! ### returned iterators
+An iterator of `XalanVector` is a pointer into the buffer: `some i` is index `i` of the *current* buffer,
+`none` an iterator into a buffer that has been released meanwhile. -/
+
+/-- `insert(thePosition, theData)`: with spare capacity the caller's position is returned as it is,
+otherwise `begin() + theDistance` is recomputed after the insertion -/
+def insertOneRet (t : TVec α) (pos : Nat) (x : α) : Option (TVec α × Option Nat) :=
+  if t.v.alloc > t.v.items.length then
+    (insertN t pos 1 x).map fun t' => (t', if t'.buf = t.buf then some pos else none)
+  else
+    (insertN t pos 1 x).map fun t' => (t', some pos)
+
+/-- the seeded variant: the spare-capacity test as `m_allocation >= m_size` -/
+def insertOneRetGe (t : TVec α) (pos : Nat) (x : α) : Option (TVec α × Option Nat) :=
+  if t.v.alloc ≥ t.v.items.length then
+    (insertN t pos 1 x).map fun t' => (t', if t'.buf = t.buf then some pos else none)
+  else
+    (insertN t pos 1 x).map fun t' => (t', some pos)
+
+/-- `erase(theFirst, theLast)` returns `theFirst` (`erase(position)` = `erase(position, position + 1)`) -/
+def eraseRet (t : TVec α) (first last : Nat) : Option (TVec α × Option Nat) :=
+  (erase t first last).map fun t' => (t', if t'.buf = t.buf then some first else none)
+
 end TVec
 end XalanModel.Containers
